@@ -166,13 +166,42 @@ class _DS(object):
         self.no_redact = no_redact
 
 
+class _OSLayer(object):
+    """the `os` / `fs` names of spec_factory during a recorded write: renaming and removing act on the recorded files, everything else is the real module"""
+
+    def __init__(self, real, store):
+        self._real, self._store = real, store
+
+    def rename(self, a, b):
+        if a not in self._store:
+            raise OSError(2, "No such file or directory", a)
+        self._store[b] = self._store.pop(a)
+
+    replace = rename
+
+    def remove(self, a):
+        if a not in self._store:
+            raise OSError(2, "No such file or directory", a)
+        del self._store[a]
+
+    unlink = remove
+
+    def ensure_path(self, p, mode=0o755):
+        return None
+
+    def __getattr__(self, name):
+        return getattr(self._real, name)
+
+
 def provider_write(cl, lines, no_obf, no_redact=False):
-    """DatasourceProvider.write under a HostContext with open()/ensure_path recorded instead of touching the disk"""
-    written = []
+    """DatasourceProvider.write under a HostContext on a recorded file layer: open() creates the file (as the real call does) and collects what
+    is written, os.rename / remove act on the recorded files.  -> ([(path, data), ...] of every file that exists afterwards, error)"""
+    store = {}
 
     class F(object):
         def __init__(self, path):
             self.path = path
+            store[path] = []
 
         def __enter__(self):
             return self
@@ -181,23 +210,36 @@ def provider_write(cl, lines, no_obf, no_redact=False):
             return False
 
         def write(self, data):
-            written.append((self.path, data))
-    old_open, old_ensure = SF.__dict__.get("open"), SF.fs.ensure_path
-    SF.open = lambda p, mode="r": F(p)
-    SF.fs.ensure_path = lambda p, mode=0o755: None
+            store[self.path].append(data)
+
+        def close(self):
+            pass
+
+    def files():
+        out = []
+        for path, parts in store.items():
+            if len(parts) == 1:
+                out.append((path, parts[0]))
+            else:
+                out.append((path, parts))
+        return out
+    old_open, old_os, old_fs = SF.__dict__.get("open"), SF.os, SF.fs
+    SF.open = lambda p, mode="r", **kw: F(p)
+    SF.os = _OSLayer(old_os, store)
+    SF.fs = _OSLayer(old_fs, store)
     try:
         prov = SF.DatasourceProvider(list(lines) if isinstance(lines, list) else lines, "insights_commands/test", ds=_DS(no_obf, no_redact), ctx=HostContext(), cleaner=cl)
         try:
             prov.write("/out/data/insights_commands/test")
-            return written, None
+            return files(), None
         except ContentException as ex:
-            return written, ex
+            return files(), ex
     finally:
         if old_open is None:
             SF.__dict__.pop("open", None)
         else:
             SF.open = old_open
-        SF.fs.ensure_path = old_ensure
+        SF.os, SF.fs = old_os, old_fs
 
 
 # ------------------------------------------------------------------ O1b: the allow-list filter stage under every set order
